@@ -161,6 +161,28 @@ def run(ctx, R, tier):
             bs.loc(), "the broadcast responder encodes the name server uri as %s, locate_ns decodes the datagram as %s: a location with a non-ASCII character designates another "
             "socket/host at the client than the one the name server listens on" % (sorted(enc), sorted(dec)))
 
+    # the responder answers each asker with the uri as seen from THAT asker (0.0.0.0 is replaced by the interface that reaches it): the uri it edits is a copy made for
+    # this datagram. Editing the server's own uri object makes the first asker's address the answer for everybody after it
+    edits = [(st, t) for st, t, k in stores_in(bs.node) if k in ("assign", "aug") and isinstance(t, ast.Attribute) and t.attr in ("host", "port", "sockname", "object", "protocol")]
+    if not edits:
+        raise AnalysisError("BroadcastServer.processRequest no longer adjusts the host of its answer")
+    brd = ctx.rd(bs)
+    bcfg = ctx.cfg(bs)
+    shared_edit = None
+    for st, t in edits:
+        if not isinstance(t.value, ast.Name):
+            shared_edit = shared_edit or st
+            continue
+        for n in bcfg.nodes_for(st):
+            for d in brd.reaching(n, t.value.id):
+                v = d.value
+                fresh = v is not None and isinstance(v, ast.Call) and (ctx.resolves_to_object(v.func, bs, U) or unparse(v.func) in ("copy.copy", "copy.deepcopy"))
+                if not fresh:
+                    shared_edit = shared_edit or st
+    R.check(shared_edit is None, "C19-R5", "broadcast|answer-edited-on-a-copy-made-for-this-datagram", "the uri whose host is adjusted for the asker is a new URI object built in this call", bs.loc(shared_edit) if shared_edit is not None else bs.loc(),
+            "`%s` changes a uri object that outlives the datagram: the interface address substituted for the FIRST asker stays in the server's uri - every later asker, over "
+            "whatever interface, is sent that address (a LAN client is told 127.0.0.1)" % (unparse(shared_edit, 70) if shared_edit is not None else ""))
+
     # ---------------------------------------------------------------- R2
     for fld in fields:
         bad = []
